@@ -51,7 +51,20 @@ def gen_field(rng, structs, depth):
 
 def gen_structs(rng, n):
     structs = []
-    for k in range(n):
+    # boundary family of the legacy "padded direct" rules (docs/wasm_abi_quirks.md): small structs around the 1/2/3/4-scalar
+    # thresholds, with and without inner padding, nested in either position
+    small, big = ["u8", "i8", "bool", "u16", "i16"], ["u32", "i32", "f32", "u64", "f64", "i64", "usize"]
+    if n >= 8:
+        a, b = ("prim", rng.choice(small)), ("prim", rng.choice(big))
+        structs.append([a, b] if rng.random() < 0.5 else [b, a])                       # S0: 2 scalars, padded
+        structs.append([("prim", rng.choice(big)), ("prim", rng.choice(big))])           # S1: 2 scalars
+        extra = lambda: ("prim", rng.choice(small + big))
+        for inner in (0, 1, 0):
+            k = len(structs) - 2                                                        # 3, 3 and 4 transitive scalars
+            fields = [("struct", inner)] + [extra() for _ in range(1 if k < 2 else 2)]
+            rng.shuffle(fields)
+            structs.append(fields)
+    for k in range(len(structs), n):
         nf = rng.randint(1, 8) if k % 3 else rng.randint(1, 4)
         fields = [gen_field(rng, structs, 0) for _ in range(nf)]
         structs.append(fields)
